@@ -396,7 +396,7 @@ func genC02(t *rapid.T) c02Case {
 	case 4, 5: // B: Base58Check
 		var ver byte
 		if rapid.Bool().Draw(t, "regver") {
-			ver = rapid.SampledFrom([]byte{0x00, 0x05, 0x6f, 0xc4, 0x3f, 0x7b, 0x80, 0xef, 0x64, 0xa1, 0xa2}).Draw(t, "ver")
+			ver = rapid.SampledFrom([]byte{0x00, 0x05, 0x6f, 0xc4, 0x3f, 0x7b, 0x80, 0xef, 0x64, 0xa1, 0xa2, 0xb1, 0xb2}).Draw(t, "ver")
 		} else {
 			ver = rapid.Byte().Draw(t, "ver")
 		}
@@ -626,7 +626,18 @@ func TestC02(t *testing.T) {
 			ev.HarnessError("cannot register custom network: %v", err)
 			return
 		}
-		nets = append(nets, netInfo{"custa", &custA}, netInfo{"custb", &custB})
+		custC := chaincfg.MainNetParams
+		custC.Name, custC.Net, custC.CashAddressPrefix, custC.SlpAddressPrefix = "custc", 0xc3c3c3c3, "bchcustc", "slpcustc"
+		custC.LegacyPubKeyHashAddrID, custC.LegacyScriptHashAddrID, custC.PrivateKeyID = 0xb1, 0xb2, 0xb3
+		custC.HDPrivateKeyID, custC.HDPublicKeyID = [4]byte{0x0c, 1, 1, 1}, [4]byte{0x0c, 1, 1, 2}
+		if err := chaincfg.Register(&custC); err != nil {
+			ev.HarnessError("cannot register custom network: %v", err)
+			return
+		}
+		nets = append(nets, netInfo{"custa", &custA}, netInfo{"custb", &custB}, netInfo{"custc", &custC})
+		for _, ver := range []byte{0xb1, 0xb2} {
+			kC02.One(ev, c02Case{S: refB58CheckEncode(bytes.Repeat([]byte{0x44}, 20), ver), Class: "B"})
+		}
 		for _, ver := range []byte{0xa1, 0xa2} {
 			kC02.One(ev, c02Case{S: refB58CheckEncode(bytes.Repeat([]byte{0x33}, 20), ver), Class: "B"})
 		}
